@@ -1286,7 +1286,7 @@ Section TwoReads.
   Qed.
 End TwoReads.
 
-(* ---- ... and what does not: the same node twice, order / completeness of either snapshot ---- *)
+(* ---- ... and what does not: the same node twice, group order of either snapshot ---- *)
 Definition tw_g : ring N := [(10, 1%N); (20, 2%N)].
 Definition tw_ks : list (N * strategy) := [(0%N, Simple 1)].
 Definition tw_pol := {| pol_pref := None; pol_token_aware := true; pol_failover := false |}.
@@ -1339,17 +1339,75 @@ Theorem two_reads_matches_sound dcf rackf g keyspaces en1 co1 en2 co2 pol rq p :
   exists h rest, p = h :: rest /\
     pick_matches dcf rackf g keyspaces en1 co1 pol rq (Some h) = true /\
     exists F, plan_matches dcf rackf g keyspaces en2 co2 pol rq F = true /\
-      (rest = F \/ (~ In h rest /\ exists a b, F = a ++ h :: b /\ rest = a ++ b)).
+      ((rest = F /\
+        (* the picked node is named again only if it is still allowed later and its annotation changed *)
+        (In h rest ->
+         (group_of dcf rackf g keyspaces en2 co2 pol rq h < 8)%nat /\
+         Bool.eqb (group_of dcf rackf g keyspaces en1 co1 pol rq h <? 3)%nat
+                  (group_of dcf rackf g keyspaces en2 co2 pol rq h <? 3)%nat = false)) \/
+       (~ In h rest /\ exists a b, F = a ++ h :: b /\ rest = a ++ b)).
 Proof.
   destruct p as [|h rest]; [discriminate|]. cbn [two_reads_matches]. cbv zeta.
   rewrite andb_true_iff. intros [Hp H]. exists h, rest. split; [reflexivity|]. split; [assumption|].
-  destruct (8 <=? group_of dcf rackf g keyspaces en2 co2 pol rq h)%nat.
-  - apply andb_true_iff in H. destruct H as [_ H]. exists rest. split; [assumption|now left].
-  - destruct (Bool.eqb _ _).
+  destruct (8 <=? group_of dcf rackf g keyspaces en2 co2 pol rq h)%nat eqn:E8.
+  - apply andb_true_iff in H. destruct H as [Hn H]. apply negb_true_iff, mem_false in Hn.
+    exists rest. split; [assumption|]. left. split; [reflexivity|]. intros Hi. contradiction.
+  - apply Nat.leb_gt in E8. destruct (Bool.eqb _ _) eqn:Eb.
     + apply andb_true_iff in H. destruct H as [Hn H]. apply negb_true_iff, mem_false in Hn.
       apply existsb_exists in H. destruct H as (F & HF & Hm). exists F. split; [assumption|]. right. split; [assumption|].
       destruct (inserts_spec h rest [] F HF) as (a & b & E & ->). cbn [rev app] in E. exists a, b. split; [reflexivity|assumption].
-    + apply andb_true_iff in H. destruct H as [_ H]. exists rest. split; [assumption|now left].
+    + apply andb_true_iff in H. destruct H as [_ H]. exists rest. split; [assumption|]. left. split; [reflexivity|].
+      intros _. split; [lia|reflexivity].
+Qed.
+
+(* the meaning of the kind-L violation test ... *)
+Lemma two_reads_safe_b_spec dcf rackf g keyspaces en1 co1 en2 co2 pol rq p :
+  two_reads_safe_b dcf rackf g keyspaces en1 co1 en2 co2 pol rq p = true <->
+  exists h rest, p = h :: rest /\
+    (en1 h = true /\ permitted dcf g pol rq h = true) /\
+    (forall n, In n rest -> en2 n = true /\ permitted dcf g pol rq n = true) /\
+    NoDup rest /\
+    (In h rest ->
+     ~ ((group_of dcf rackf g keyspaces en2 co2 pol rq h < 8)%nat /\
+        Bool.eqb (group_of dcf rackf g keyspaces en1 co1 pol rq h <? 3)%nat
+                 (group_of dcf rackf g keyspaces en2 co2 pol rq h <? 3)%nat = true)).
+Proof.
+  destruct p as [|h rest].
+  - split; [discriminate|]. intros (h & rest & E & _). discriminate.
+  - cbn [two_reads_safe_b]. cbv zeta. rewrite !andb_true_iff, forallb_forall, nodupb_spec, negb_true_iff. split.
+    + intros [[[[H1 H2] H3] H4] H5]. exists h, rest. split; [reflexivity|]. split; [tauto|]. split.
+      { intros n Hn. specialize (H3 n Hn). now apply andb_true_iff in H3. }
+      split; [assumption|]. intros Hi [Hl He]. apply mem_In in Hi. rewrite Hi in H5.
+      apply Nat.ltb_lt in Hl. rewrite Hl, He in H5. discriminate.
+    + intros (h' & rest' & [= <- <-] & [H1 H2] & H3 & H4 & H5). repeat split; try assumption.
+      { intros n Hn. apply andb_true_iff. now apply H3. }
+      destruct (mem h rest) eqn:Em; [|reflexivity]. apply mem_In in Em. specialize (H5 Em).
+      destruct (_ <? 8)%nat eqn:E8; [|reflexivity]. destruct (Bool.eqb _ _) eqn:Eb; [|reflexivity].
+      exfalso. apply H5. split; [now apply Nat.ltb_lt|reflexivity].
+Qed.
+
+(* ... and: whatever the kind-L acceptor accepts passes it (an accepted plan is never a violation) *)
+Theorem two_reads_matches_safe dcf rackf g keyspaces en1 co1 en2 co2 pol rq p :
+  sorted_weak g ->
+  two_reads_matches dcf rackf g keyspaces en1 co1 en2 co2 pol rq p = true ->
+  two_reads_safe_b dcf rackf g keyspaces en1 co1 en2 co2 pol rq p = true.
+Proof.
+  intros Hs H. apply two_reads_matches_sound in H.
+  destruct H as (h & rest & -> & Hp & F & HF & Hr).
+  apply two_reads_safe_b_spec. exists h, rest. split; [reflexivity|].
+  pose proof (plan_matches_sound dcf rackf g keyspaces en2 co2 (fun _ => 0%N) pol rq _ HF) as (F1 & F2 & F3 & _).
+  pose proof (plan_matches_ring dcf rackf g keyspaces en2 co2 (fun _ => 0%N) pol rq _ HF) as F4.
+  assert (HFok : forall n, In n F -> en2 n = true /\ permitted dcf g pol rq n = true).
+  { intros n Hn. split; [now apply F2|]. apply permitted_spec. split; [now apply F4|]. intros d Hd Hfo. now apply (F3 d Hd Hfo). }
+  split.
+  { destruct (pick_matches_sound dcf rackf g keyspaces en1 co1 (fun _ => 0%N) pol rq h Hp) as (H8 & _).
+    exact (grp_lt8_ok dcf rackf g keyspaces en1 co1 (fun _ => 0%N) pol rq Hs h H8). }
+  destruct Hr as [[-> Hi]|(Hn & a & b & -> & ->)].
+  - split; [assumption|]. split; [assumption|]. intros Hin [_ He]. destruct (Hi Hin) as [_ He']. congruence.
+  - split; [|split].
+    + intros n Hn'. apply HFok. rewrite in_app_iff in *. cbn [In]. tauto.
+    + eapply NoDup_remove_1. exact F1.
+    + intros Hin. contradiction.
 Qed.
 
 Lemma remove_split (h : N) l : NoDup l -> In h l ->
@@ -1454,5 +1512,10 @@ Section TwoReadsAccept.
              rewrite Ea, !app_assoc.
              exact (inserts_complete h ((uniq R2 ++ a) ++ b) [] (uniq R2 ++ a) b eq_refl).
   Qed.
+  (* ... hence passes the kind-L violation test *)
+  Corollary two_reads_model_safe pl :
+    plan_two_reads dcf rackf g keyspaces en1 co1 en2 co2 shf pol rq cho shuf = Some pl ->
+    two_reads_safe_b dcf rackf g keyspaces en1 co1 en2 co2 pol rq (map fst pl) = true.
+  Proof. intros H. apply two_reads_matches_safe; [exact Hs|]. now apply two_reads_accepted. Qed.
 End TwoReadsAccept.
 
